@@ -40,6 +40,19 @@ def _objarray(x):
     return a
 
 
+class _F64(_np.float64):
+    """np.float64 stand-in: a valid dtype, and a constructor that lets symbolic scalars pass through."""
+
+    def __new__(cls, x=0.0):
+        if is_sym(x):
+            return x
+        return _np.float64(x)
+
+
+def _is_float_dt(dtype):
+    return dtype is None or dtype is float or (isinstance(dtype, type) and issubclass(dtype, _np.float64))
+
+
 class NpProxy:
     """Module-like object: getattr falls back to real numpy."""
 
@@ -58,7 +71,7 @@ class NpProxy:
     def zeros(self, shape=None, dtype=None, **kw):
         if shape is None:
             shape = kw.pop("shape")
-        if dtype is None or dtype in (float, _np.float64):
+        if _is_float_dt(dtype):
             a = _np.empty(shape, dtype=object)
             a.fill(0)
             return a
@@ -67,7 +80,7 @@ class NpProxy:
     def ones(self, shape=None, dtype=None, **kw):
         if shape is None:
             shape = kw.pop("shape")
-        if dtype is None or dtype in (float, _np.float64):
+        if _is_float_dt(dtype):
             a = _np.empty(shape, dtype=object)
             a.fill(1)
             return a
@@ -96,10 +109,7 @@ class NpProxy:
     def copy(self, a):
         return _np.copy(a)
 
-    def float64(self, x):
-        if is_sym(x):
-            return x
-        return _np.float64(x)
+    float64 = None  # set below (usable both as constructor and as dtype)
 
     # -- element-wise maths ---------------------------------------------------------
     fabs = staticmethod(_elementwise(lambda v: abs(v), _np.fabs))
@@ -175,6 +185,29 @@ class NpProxy:
     @staticmethod
     def sum(a, axis=None, **kw):
         return _np.sum(a, axis=axis, **kw)
+
+    @staticmethod
+    def min(a, axis=None, **kw):
+        if any_sym(a) and axis is None:
+            flat = list(_np.asarray(a, dtype=object).ravel())
+            r = flat[0]
+            for v in flat[1:]:
+                r = sym_ite(_lt(v, r), v, r)
+            return r
+        return _np.min(a, axis=axis, **kw)
+
+    @staticmethod
+    def max(a, axis=None, **kw):
+        if any_sym(a) and axis is None:
+            flat = list(_np.asarray(a, dtype=object).ravel())
+            r = flat[0]
+            for v in flat[1:]:
+                r = sym_ite(_lt(r, v), v, r)
+            return r
+        return _np.max(a, axis=axis, **kw)
+
+    amin = min
+    amax = max
 
     # -- structural functions lacking object support ------------------------------------------
     @staticmethod
@@ -253,7 +286,13 @@ def _rows_equal(r1, r2):
     return bool(r1 == r2)
 
 
+NpProxy.float64 = _F64
 NPX = NpProxy()
+
+
+def np_with(**overrides):
+    """A proxy instance with extra per-harness overrides (each one is a recorded stub)."""
+    return type("NpProxyX", (NpProxy,), {k: staticmethod(v) for k, v in overrides.items()})()
 
 
 class patched:
